@@ -4,3 +4,4 @@ import "github.com/emersion/go-smtp"
 
 type smtpSMTPError = smtp.SMTPError
 type smtpRcptOptions = smtp.RcptOptions
+type smtpEnhCode = smtp.EnhancedCode
